@@ -2,7 +2,7 @@
     [final_ok] implies [DrawFinal]; [docb] / [old_docb] decide the documented rules. *)
 From Coq Require Import List ZArith Bool Lia.
 Import ListNotations.
-From TI Require Import lib.Term lib.TermFacts lib.RectCheck lib.TermScroll lib.Lines
+From TI Require Import lib.Term lib.TermFacts lib.RectCheck lib.TermScroll lib.TermPlace lib.Lines
      model.Padding model.Draw model.DrawTie proofs.DrawLines proofs.DrawProofs.
 Open Scope Z_scope.
 Local Arguments Z.eqb : simpl never.
@@ -27,8 +27,8 @@ Proof.
   destruct (ev_dec e e0); [congruence|discriminate].
 Qed.
 
-Theorem final_ok_sound W H pw ph Ref St r0 hide :
-  final_ok W H pw ph Ref St r0 = true ->
+Theorem final_ok_sound kitty W H pw ph Ref St r0 hide :
+  final_ok kitty W H pw ph Ref St r0 = true ->
   DrawFinal W H 0 0 (start r0 0) hide pw ph Ref St.
 Proof.
   unfold final_ok, final_clauses. cbn [forallb]. intros Hf.
@@ -39,7 +39,7 @@ Proof.
   apply andb_true_iff in Hf; destruct Hf as [C5 Hf].
   apply andb_true_iff in Hf; destruct Hf as [C6 Hf].
   apply andb_true_iff in Hf; destruct Hf as [C7 Hf].
-  apply andb_true_iff in Hf; destruct Hf as [C8 _].
+  apply andb_true_iff in Hf; destruct Hf as [C8 Hf].
   apply andb_true_iff in C5. destruct C5 as [C5a C5b].
   constructor; cbn [row col visible start].
   - apply Z.eqb_eq, C1.
@@ -78,4 +78,23 @@ Proof.
     rewrite ?Z.leb_le, ?Z.leb_gt in *;
     destruct cs, scroll, anim, dyn; cbn [orb andb negb];
     intuition (try congruence; try lia; try (exfalso; lia)).
+Qed.
+
+Lemma pls_eqb_eq : forall a b, pls_eqb a b = true -> a = b.
+Proof.
+  induction a as [|x a IH]; intros [|y b] H; cbn in H; try discriminate; [reflexivity|].
+  apply andb_true_iff in H. destruct H as [H1 H2]. rewrite (IH b H2). f_equal.
+  unfold pl_eqb in H1. rewrite !andb_true_iff, !Z.eqb_eq in H1.
+  destruct x, y; cbn in *. destruct H1 as ((((-> & ->) & ->) & ->) & ->). reflexivity.
+Qed.
+
+(** with the kitty flag the predicate also gives: the placements left on the screen are
+    those of the reference *)
+Theorem final_ok_live W H pw ph Ref St r0 :
+  final_ok true W H pw ph Ref St r0 = true ->
+  live (exec_evs 0 (start r0 0) St) = live (exec_evs 0 (start r0 0) Ref).
+Proof.
+  unfold final_ok, final_clauses. cbn [forallb]. intros Hf.
+  do 8 (apply andb_true_iff in Hf; destruct Hf as [_ Hf]).
+  apply andb_true_iff in Hf. destruct Hf as [C9 _]. apply pls_eqb_eq, C9.
 Qed.
